@@ -70,6 +70,25 @@ Proof.
     apply in_map_iff. exists (Z.to_nat a). split; [lia|]. apply in_seq. lia.
 Qed.
 
+
+(* the protocol constants as the properties were written for them ("golden" values transcribed from the
+   pinned tree): an edit of DEFINITIONS.py that changes any of them re-opens this obligation *)
+Lemma golden_tables :
+  CMD_SOH = 1 /\ CMD_STX = 2 /\ CMD_ETX = 3 /\ CMD_EOT = 4 /\
+  CMD_EXT_NO_PARAMS = [65; 66; 67; 68; 69; 70; 72; 74] /\ CMD_EXT_WITH_PARAMS = [71; 73; 75; 76; 77; 78; 79] /\
+  CMD_ABBR_NO_PARAMS = [97; 98; 99; 100; 101; 102; 104; 106] /\
+  CMD_ABBR_WITH_PARAMS = [103; 105; 107; 108; 109; 110; 111] /\
+  CMD_EXT = CMD_EXT_NO_PARAMS ++ CMD_EXT_WITH_PARAMS /\
+  ACCEPTED_COMMANDS = CMD_EXT_NO_PARAMS ++ CMD_EXT_WITH_PARAMS ++ CMD_ABBR_NO_PARAMS ++ CMD_ABBR_WITH_PARAMS /\
+  SLAVE_ADDR_ACCEPTED = map Z.of_nat (seq 1 126) /\ FRAME_SIZE_ACCEPTED = map Z.of_nat (seq 1 126) /\
+  DATA_TYPES = map Z.of_nat (seq 0 27) ++ map Z.of_nat (seq 32 26) ++ [64] /\
+  PORT_TYPES = map Z.of_nat (seq 0 9) ++ [64; 122; 123; 124; 125; 126; 127] /\
+  PORT_NUMBERS = map Z.of_nat (seq 0 118) /\
+  VERSION = [0; 0; 0; 0; 0; 0; 0; 0] /\
+  DATA_TYPE_B01 = 3 /\ DATA_TYPE_U08 = 8 /\ DATA_TYPE_F32 = 24 /\ PORT_TYPE_DIO = 4 /\ PORT_TYPE_AD24 = 8 /\
+  PORT_NUMBER_00_07 = 96.
+Proof. repeat split; reflexivity. Qed.
+
 (* the DIO port chains of slaves.py (read by the translator) are the ones the model implements *)
 Lemma dio_chains_ok :
   DEWAR_get_data_ports = [PORT_NUMBER_00; PORT_NUMBER_04; PORT_NUMBER_05; PORT_NUMBER_06; PORT_NUMBER_07;
